@@ -46,6 +46,7 @@ var Prop = &engine.Prop{
 		{Name: "stream", Quick: 6400, Thorough: 768000, Fn: streamCase},
 		{Name: "conc", Quick: 80, Thorough: 4000, Fn: concCase},
 		{Name: "big-string", Quick: 16, Thorough: 400, Fn: bigStringCase},
+		{Name: "reuse", Quick: 1600, Thorough: 96000, Fn: reuseCase},
 	},
 	Floors: map[string]int64{
 		"rt_sequences":           2000,
@@ -65,6 +66,8 @@ var Prop = &engine.Prop{
 		"st_data_with_eof":       100,
 		"st_both_fail":           500,
 		"st_chunk_runs":          10000,
+		"reuse_resets":           500,
+		"reuse_bulk_items":       500,
 	},
 }
 
